@@ -166,6 +166,106 @@ remove_interaction = FunctionContract(
 )
 CONTRACTS.append(remove_interaction)
 
+# ------------------------------------------------------------------ remove_matching_interaction
+Template = TKey('Template')
+SPEC3M = dict(SPEC3)
+NO_IMATCH = "forall(lambda j: implies(0 <= j and j < {I}, not imatch(old(self.interactions)[type_][j], template_interaction)))"
+
+
+def setup_rmm(cx):
+    m = molecule(cx)
+    # interaction_match(molecule, interaction, template): a pure predicate of the interaction and the template (the molecule's
+    # atoms and their attributes are not changed by this method)
+    im = cx.uf('imatch', [IT, Template], TBool)
+    cx.spec_env['interaction_match'] = Builtin(
+        lambda e, mol, inter, tmpl: wrap(TBool, im(to_z3(inter, IT), to_z3(tmpl, Template))) if mol is m else
+        (_ for _ in ()).throw(EngineError('interaction_match on another molecule')), 'interaction_match')
+    return dict(self=m, type_=cx.val('type_', TStr), template_interaction=cx.val('template_interaction', Template))
+
+
+remove_matching_interaction = FunctionContract(
+    F, 'Molecule.remove_matching_interaction', 'C12', setup=setup_rmm, spec_defs=SPEC3M, spec_env=dict(Template=Template),
+    requires=["wf(self.interactions, NODESET)"],
+    ensures=[
+        # the first interaction of that type that matches the template is removed, the others keep their order
+        "forall(lambda i: implies(0 <= i and i < oldlist_len(old(self.interactions), type_) and "
+        "   imatch(old(self.interactions)[type_][i], template_interaction) and " + NO_IMATCH.format(I='i') + ", "
+        "   type_ in self.interactions and len(self.interactions[type_]) == len(old(self.interactions)[type_]) - 1 and "
+        "   forall(lambda k: implies(0 <= k and k < len(self.interactions[type_]), "
+        "       self.interactions[type_][k] == old(self.interactions)[type_][k + 1 if k >= i else k]))))",
+        "exists(lambda i: 0 <= i and i < oldlist_len(old(self.interactions), type_) and "
+        "   imatch(old(self.interactions)[type_][i], template_interaction))",
+        "others_same(self.interactions, old(self.interactions), type_)",
+        "wf(self.interactions, NODESET)", "NODESET == old(NODESET)",
+    ],
+    # no interaction of that type matches: ValueError, and every list is as it was (asking a defaultdict for a type it does not
+    # have leaves an empty list of that type behind)
+    raises={'ValueError': [NO_IMATCH.format(I='oldlist_len(old(self.interactions), type_)'),
+                           "wf(self.interactions, NODESET)", "NODESET == old(NODESET)",
+                           "others_same(self.interactions, old(self.interactions), type_)",
+                           "type_ in self.interactions and len(self.interactions[type_]) == oldlist_len(old(self.interactions), type_) and "
+                           "forall(lambda k: implies(0 <= k and k < len(self.interactions[type_]), "
+                           "   self.interactions[type_][k] == old(self.interactions)[type_][k]))"]},
+    modifies=['self.interactions'],
+    loops={'L1': LoopSpec(inv=[
+        NO_IMATCH.format(I='_i'),
+        "type_ in self.interactions and len(self.interactions[type_]) == oldlist_len(old(self.interactions), type_)",
+        "forall(lambda k: implies(0 <= k and k < len(self.interactions[type_]), self.interactions[type_][k] == old(self.interactions)[type_][k]))",
+        "others_same(self.interactions, old(self.interactions), type_)"])},
+    canary=[("del self.interactions[type_][idx]", "del self.interactions[type_][0]"),
+            ("if interaction_match(self, interaction, template_interaction):", "if not interaction_match(self, interaction, template_interaction):")],
+)
+CONTRACTS.append(remove_matching_interaction)
+
+# ------------------------------------------------------------------ interaction_match
+AttrD, PVal = TKey('AttrD'), TKey('PVal')
+ITM = TTuple(Atoms, TSeq(PVal), AttrD, names=['atoms', 'parameters', 'meta'])
+
+
+def setup_im(with_attrs):
+    def setup(cx):
+        attrs_of = cx.uf('attrs_of', [Key], AttrD)         # molecule.nodes[atom]
+        am = cx.uf('am', [AttrD, AttrD], TBool)            # attributes_match(attributes, template) by its contract (proved under C05)
+        # ... of which one consequence is used: an empty template matches everything
+        x = z3.Const('x', AttrD.sort())
+        cx.assume(z3.ForAll([x], am(x, z3.Const('empty_AttrD', AttrD.sort()))))
+        cx.spec_env['attributes_match'] = Builtin(lambda e, a, t: wrap(TBool, am(to_z3(a, AttrD), to_z3(t, AttrD))), 'attributes_match')
+        molecule = Obj('Molecule', nodes=Obj('NodeView', __getitem__=Builtin(
+            lambda e, k: SV(AttrD, attrs_of(to_z3(k, Key))), 'molecule.nodes[]')))
+        tmpl = Obj('DeleteInteraction' if with_attrs else 'Interaction', atoms=cx.val('t_atoms', Atoms),
+                   parameters=cx.val('t_parameters', TSeq(PVal)), meta=cx.val('t_meta', AttrD))
+        if with_attrs:
+            tmpl.attrs['atom_attrs'] = cx.val('t_atom_attrs', TSeq(AttrD))
+        tmpl.__dict__['closed'] = True                     # no other attribute: AttributeError
+        cx.spec_env['T'] = tmpl
+        return dict(molecule=molecule, interaction=cx.val('interaction', ITM), template_interaction=tmpl)
+    return setup
+
+
+SPEC_IM = {
+    'same_seq': SPEC['same_seq'],
+    # same atoms in the same order; the template's parameters, when it has any, are the interaction's
+    'base': "lambda: same_seq(T.atoms, interaction.atoms) and (len(T.parameters) == 0 or same_seq(T.parameters, interaction.parameters))",
+}
+for _wa in (False, True):
+    CONTRACTS.append(FunctionContract(
+        F, 'interaction_match', 'C12', short='interaction_match[%s]' % ('DeleteInteraction' if _wa else 'Interaction'),
+        setup=setup_im(_wa), spec_defs=SPEC_IM, spec_env=dict(Key=Key, AttrD=AttrD),
+        ensures=[
+            # an interaction matches a template exactly when the atoms (and the parameters, if the template gives any) are the
+            # same, the template's meta matches the interaction's, and - for a DeleteInteraction - every atom's attributes match
+            # the template's attributes for that place
+            ("result == (base() and am(interaction.meta, T.meta) and forall(lambda k: implies(0 <= k and k < len(interaction.atoms) and "
+             "   k < len(T.atom_attrs), am(attrs_of(interaction.atoms[k]), T.atom_attrs[k]))))") if _wa else
+            "result == (base() and am(interaction.meta, T.meta))",
+        ],
+        loops={'L1': LoopSpec(inv=[
+            ("forall(lambda k: implies(0 <= k and k < _i, am(attrs_of(interaction.atoms[k]), T.atom_attrs[k])))") if _wa else "True"])},
+        canary=[("return attributes_match(interaction.meta, template_interaction.meta)", "return True"),
+                ("if not attributes_match(atom, template_atom):", "if attributes_match(atom, template_atom):"),
+                ("not template_interaction.parameters\n        or", "template_interaction.parameters\n        and")],
+    ))
+
 # ------------------------------------------------------------------ _remove_interactions_with_node
 SPEC4 = dict(SPEC)
 SPEC4.update({
